@@ -324,10 +324,54 @@ def run(ctx):
     for r in rows:
         op, args = destruct(r.ret)
         lst = args[1] if op == "join" and len(args) == 2 else ""
-        lop, largs = destruct(lst)
-        ok = ok and op == "join" and args[0] == K("\r\n") and lop == "list" and largs and largs[-1] == K("\r\n")
+
+        def _elements(t_):
+            """elements of a list expression: a display, a concatenation of lists, a comprehension (as one starred element)"""
+            o_, a_ = destruct(t_)
+            if o_ == "list":
+                return list(a_)
+            if o_ == "add" and len(a_) == 2:
+                l_, r_ = _elements(a_[0]), _elements(a_[1])
+                return None if l_ is None or r_ is None else l_ + r_
+            if o_ in ("listcomp", "gen"):
+                return [T("star", t_)]
+            return None
+
+        largs = _elements(lst)
+        lop = "list" if largs is not None else None
+        largs = tuple(largs or ())
+        ok = ok and op == "join" and args[0] == K("\r\n") and lop == "list" and bool(largs) and largs[-1] == K("\r\n")
         if not (lop == "list" and largs):
             continue
+        # lines produced by a comprehension: `name: value` of one element of a sequence derived from the headers, kept only when
+        # the value is set.  (Which order a re-sorted sequence has is not decided - DESIGN 13.2.)
+        comp = [x for x in largs[:-1] if destruct(x)[0] == "star" and destruct(destruct(x)[1][0])[0] in ("listcomp", "gen")]
+        if comp:
+            for x in comp:
+                n_lines += 1
+                cop, cargs = destruct(destruct(x)[1][0])
+                line, loop, conds = norm(cargs[0]), cargs[1], list(cargs[2:])
+                flat = []
+                while conds:
+                    c_ = conds.pop()
+                    if destruct(c_)[0] == "and":
+                        conds += list(destruct(c_)[1])
+                    else:
+                        flat.append(c_)
+                conds = flat
+                lop2, lparts = destruct(line)
+                shape = lop2 == "cat" and len(lparts) == 3 and lparts[1] == K(": ")
+                E = T("each", loop)
+                pairs = [(T("idx", E, "0"), T("idx", E, "1")), (T("each0", loop), T("each1", loop)),
+                         (E, T("idx", "self.headers", E)), (E, T("get", "self.headers", E)), (E, T("get", "self.headers", E, "False"))]
+                pair = shape and (lparts[0], lparts[2]) in pairs
+                val = lparts[2] if shape else ""
+                guard = any(c in (T("truthy", val), T("truthy", T("get", "self.headers", E, "False")), T("truthy", T("get", "self.headers", E))) for c in conds)
+                src_ok = {a_ for a_ in subterms(loop) if destruct(a_)[0] is None and a_.startswith(("self.", "p:"))} <= {"self.headers"}
+                ctx.ob(R3, rh.qual, f"line `{line[:80]}` is `name: value` of one header, emitted only when that header is set (comprehension form)", bool(pair and guard and src_ok),
+                       "" if pair and guard and src_ok else "a header line does not pair a name with its own value, or is emitted for an unset header", witness=r.witness(), node=rh.node)
+            if len(comp) == len(largs) - 1:
+                continue
         # every emitted line is `<name>: <value>` of ONE header entry, emitted exactly when the value is set (truthy);
         # the three leading headers come first, then every other header
         reps = [destruct(x)[1] for x in largs[:-1]]
@@ -365,7 +409,7 @@ def run(ctx):
         if r.truth(T("each1", items_I)) is True and any(isinstance(k, tuple) and k[0] == "cmp" and k[1] == T("each0", items_I) and k[2] == "in" and v is False for k, v in r.st.ts.items()):
             ctx.ob(R3, rh.qual, "a set header outside the leading three is emitted", items_I in emitted_loops, "a header the field specifies is dropped from the part", witness=r.witness(), node=rh.node)
     ctx.ob(R3, rh.qual, "header block is the lines joined by CRLF and ends with an empty line", ok, "; ".join(r.ret[-80:] for r in rows[:2]))
-    ctx.sites(R3, n_lines, 2, "header lines emitted by render_headers")
+    ctx.sites(R3, n_lines, 1, "header lines emitted by render_headers")
     cb = m.func(f"{FP}.choose_boundary")
     txt = astq.text(cb.node)
     ok = "os.urandom(16)" in txt and "hexlify" in txt
@@ -476,9 +520,21 @@ def _run_r2(ctx, R2):
             if isinstance(f, ast.Attribute) and recv is not None and "src:value" in recv.tags:
                 if f.attr == "translate" and node.args:
                     try:
-                        table = fold.ev(node.args[0], fm.module)
+                        table = fold.ev(node.args[0], it.module)
                     except Exception:
                         table = None
+                    if table is None and pos:
+                        # a table built in a local first (a dict display with constant entries), or a folded module constant
+                        from ..interp import dslots as _ds
+                        if pos[0].kind == "dict" and not pos[0].val[1] and all(v.kind == "const" for v in _ds(pos[0]).values()):
+                            table = {k: v.val for k, v in _ds(pos[0]).items()}
+                        elif pos[0].kind == "const" and isinstance(pos[0].val, dict):
+                            table = pos[0].val
+                        elif isinstance(node.args[0], ast.Name):
+                            try:
+                                table = fold.module_const(it.module, node.args[0].id)
+                            except Exception:
+                                table = None
                     self.tables.append((node, table))
                     full = isinstance(table, dict) and all(table.get(c) == e for c, e in FORBIDDEN.items()) and not any(
                         isinstance(v, str) and (set(v) & bad_chars) for v in table.values())
@@ -488,6 +544,28 @@ def _run_r2(ctx, R2):
                     # conservative: any other str operation keeps (or may re-introduce) raw characters
                     tags = (recv.tags - {"escaped"}) | {"raw"}
                     return [Out("normal", st, AV("unk", sym=f"{f.attr}({recv.sym})", tags=frozenset(tags), none=False))]
+            if isinstance(f, ast.Attribute) and f.attr == "format" and recv is not None and recv.kind == "const" and isinstance(recv.val, str) and not kw:
+                # "..{}..{}..".format(a, b) is the f-string with the same fields
+                import string as _string
+                try:
+                    fields = list(_string.Formatter().parse(recv.val))
+                except ValueError:
+                    fields = None
+                if fields is not None and all((name is None) or (not spec and not conv and (name == "" or name.isdigit())) for _, name, spec, conv in fields):
+                    parts, auto = [], 0
+                    for lit, name, spec, conv in fields:
+                        if lit:
+                            parts.append(("lit", lit))
+                        if name is None:
+                            continue
+                        i = auto if name == "" else int(name)
+                        auto += 1 if name == "" else 0
+                        if i < len(pos):
+                            parts.append(("val", pos[i]))
+                    self.n += 1
+                    sym = f"format{self.n}"
+                    self.parts[sym] = parts
+                    return [Out("normal", st, AV("unk", sym=sym, none=False, truth=True))]
             g = _regex_guard(ctx, fm.module, node)
             if g is not None and pos:
                 subj = pos[-1]
@@ -526,8 +604,9 @@ def _run_r2(ctx, R2):
             return None
 
     rule = Esc()
-    outs, it = run_function(m, fm, rule, params={pname: AV("unk", sym="p:name", tags=frozenset({"src:name"})),
-                                                   pvalue: AV("unk", sym="p:value", tags=frozenset({"src:value", "raw"}))},
+    from ..rows import helper_closure as _hc
+    outs, it = run_function(m, fm, rule, inline=set(_hc(m, [fm])) - {fm.qual}, params={pname: AV("unk", sym="p:name", tags=frozenset({"src:name"})),
+                                                                                        pvalue: AV("unk", sym="p:value", tags=frozenset({"src:value", "raw"}))},
                             record_decisions=True)
     ctx.states += it.budget.steps
     rets = [o for o in outs if o.kind == "return"]
